@@ -102,6 +102,16 @@ class Gamma(object):
                           "line length of one hundred columns, twice over if need be").format(name)
         if c == "multi":
             return True, "the {}\nsecond line of it".format(name)
+        if c == "trig_number":
+            return True, "number of {} to use".format(name)
+        if c == "trig_whether":
+            return True, "whether to use the {}".format(name)
+        if c == "trig_listof":
+            return True, "list of {} values".format(name)
+        if c == "trig_or":
+            return True, "the {}, one of `sgd` or `adam`".format(name)
+        if c == "trig_default":
+            return True, "the {}. Default: 5".format(name)
         if c == "residue":
             return True, "the {}. Defaults to".format(name)
         if c == "pk":
